@@ -1,0 +1,12 @@
+//go:build !verif
+
+// Package verifhook provides pause/observation points for external
+// verification tooling. Without the build tag `verif` every function is an
+// empty no-op.
+package verifhook
+
+// At is a named pause point.
+func At(string) {}
+
+// Mut announces a persistent-state mutation that is about to happen.
+func Mut(string, string) {}
